@@ -16,6 +16,7 @@ creation next to the image, deletion of either cache, and interrupted cache writ
 harness only (deep-copy comparison before/after each call).
 -/
 import Alos2.Proofs.Flow
+import Alos2.Proofs.Bridge
 
 namespace Alos2.C10
 
@@ -30,5 +31,20 @@ theorem writes (E : Env) (s : CState) (use create : Bool) (r : Nat) :
     (openImage E s use create r).state.adj = s.adj ∧
     (create = false → (openImage E s use create r).state = s) :=
   openImage_writes E s use create r
+
+/-- the same for the concrete environment of an image file (no assumption left about the groups, see C07
+    `concrete_read_valid`): after ANY history of opens / CLI runs / deletions, every open returned the uncached group at its own
+    chunk size -/
+theorem concrete_history_independent (fr : FloatRepr) (hfr : fr.OK) (loads : List Char → Except Err PyVal)
+    (hJ1 : ∀ d : PyVal, d.TupleFree = true → d.WF = true → loads (dump d) = .ok d)
+    (hJ2 : ∀ t : List Char, (¬ Balanced t ∨ t = []) → ∃ e, loads t = .error e)
+    (root : String) (file : Bytes) (name : String) (gname : String) (g : ImageGroup) (cg : CGroup)
+    (h : openImageFile file name 1 = .ok (gname, g)) (hb : bridge fr root name gname g = some cg)
+    (header : Val) (recs : List Val) (hr : readImageRecords file 1 = .ok (header, recs)) (hn : 0 < recs.length)
+    (hk : (∀ r ∈ recs, IsLineRecord Gen.processedDataRecord r) ∨ (∀ r ∈ recs, IsLineRecord Gen.signalDataRecord r))
+    (hd : DatesOK g = true) (ops : List Op) :
+    ∀ o ∈ (run { U := fun r => cg.withRpc r, loads := loads } {} ops).1, o.2 = .ok (cg.withRpc o.1) :=
+  history_independent { U := fun r => cg.withRpc r, loads := loads }
+    (concrete_env_ok fr hfr loads hJ1 hJ2 root file name gname g cg h hb header recs hr hn hk hd) ops
 
 end Alos2.C10
